@@ -267,6 +267,18 @@ fn leaf_kind_1() {
     kinds_agree(&[x]);
 }
 
+// the bare one-character token "^" (empty text): neither leaf_kind_1 (excludes '^') nor
+// leaf_caret_text_1 ("^x") reaches it; seeded change C14-stream-bare-caret lives exactly there
+#[kani::proof]
+#[kani::unwind(16)]
+#[kani::stub(alloc::fmt::format, stub_format)]
+fn leaf_kind_bare_caret() {
+    let x = ascii(kani::any());
+    kani::assume(x == b'^');
+    kani::cover!(x == b'^', "must: bare caret token");
+    kinds_agree(&[x]);
+}
+
 #[kani::proof]
 #[kani::unwind(16)]
 #[kani::stub(alloc::fmt::format, stub_format)]
